@@ -9,7 +9,11 @@ from typing import TYPE_CHECKING, Generic, TypeVar
 from aws_durable_execution_sdk_python.exceptions import InvalidStateError
 
 if TYPE_CHECKING:
-    from aws_durable_execution_sdk_python.state import CheckpointedResult
+    from aws_durable_execution_sdk_python.identifier import OperationIdentifier
+    from aws_durable_execution_sdk_python.state import (
+        CheckpointedResult,
+        ExecutionState,
+    )
 
 T = TypeVar("T")
 
@@ -103,6 +107,9 @@ class OperationExecutor(ABC, Generic[T]):
     - execute(): Execute the operation logic with checkpoint data
     """
 
+    # set by the concrete executors
+    operation_identifier: OperationIdentifier
+
     @abstractmethod
     def check_result_status(self) -> CheckResult[T]:
         """Check operation status and create START checkpoint if needed.
@@ -180,6 +187,16 @@ class OperationExecutor(ABC, Generic[T]):
             if result.checkpointed_result is None:
                 msg = "CheckResult is marked ready to execute but checkpointed result is not set."
                 raise InvalidStateError(msg)
+            # An operation that is resumed (found STARTED / READY, or a summarised context whose
+            # body runs again) gets here without having sent a checkpoint, and a checkpoint is where
+            # a branch whose parent context already completed is normally stopped. Ask before any
+            # user code of the operation runs.
+            state: ExecutionState | None = getattr(self, "state", None)
+            if state is not None:
+                state.raise_if_orphaned(
+                    self.operation_identifier.operation_id,
+                    self.operation_identifier.parent_id,
+                )
             return self.execute(result.checkpointed_result)
 
         # Invalid state - neither terminal nor ready to execute
